@@ -4,9 +4,11 @@ import collections
 PROP = "C14"
 HARNESS = "c14"
 N = {"quick": 4000, "thorough": 0}     # thorough: every single edit of every base model (exhaustive)
-LEAN_MODS = ["Cte.Props.C14", "Cte.Props.C14Sane"]
+LEAN_MODS = ["Cte.Props.C14", "Cte.Props.C14Sane", "Cte.Props.C14Json"]
 CORRESPONDENCES = ["on models the harness calls sane (one in three): when the sanity test of the theorem holds (saneU, evaluated by the driver), the "
-                   "model has no U-value with a failed division (as saneU_nfWalls_empty proves) and the implementation reports no non-finite number"]
+                   "model has no U-value with a failed division (as saneU_nfWalls_empty proves) and the implementation reports no non-finite number",
+                   "for every model that computes: the indicators load back from their JSON exactly when no required number of theirs is non-finite "
+                   "(record_loads_back_iff: serde_json writes NaN / inf as null, a plain f32 field refuses null)"]
 RULE = ("every model reachable from the 7 shipped model files, generated models (with geometric positions, shades, schedules) and "
         "editor-minimal models grown element by element, by 1..3 structural edits of the JSON tree (delete key/item, empty, duplicate "
         "or truncate an array, nil or redirect an id, zero or negate a number); quick: seeded sample; thorough: all single edits; "
@@ -25,8 +27,14 @@ _sites = collections.Counter()
 
 
 def compare(case, out):
+    res0 = []
+    i = case["impl"]
+    if i.get("outcome") == "ok" and "loads_back" in i:
+        _stats["results_checked_for_loads_back_iff_finite"] += 1
+        if bool(i["loads_back"]) != (not i.get("non_finite_at")):
+            res0.append((CORRESPONDENCES[1], f"{case['label']}: loads back = {i['loads_back']} but non-finite required number at {i.get('non_finite_at')}"))
     if case.get("op") != "saneu":
-        return []
+        return res0
     if "sane_u" not in out:
         return [(CORRESPONDENCES[0], f"model gave {str(out)[:160]}")]
     _stats["sane_models_given_to_the_model"] += 1
@@ -41,7 +49,7 @@ def compare(case, out):
                         f"{case['impl']['non_finite_at']}"))
     elif out["nf_walls"]:
         _stats["sane_models_with_a_failed_division_in_the_model"] += 1
-    return res
+    return res0 + res
 
 
 def oracle(case):
